@@ -18,7 +18,10 @@ type Step struct {
 	A     string `json:"a"` // Init Post Set Wait Ctx Ret
 	C     int    `json:"c"`
 	T     int    `json:"t"`
-	Cls   string `json:"cls"`
+	Cls   string `json:"cls"` // the class the submission sees (the specification's choice where Seen leaves one)
+	W     string `json:"w"`   // wire kind
+	Sp    string `json:"sp"`  // spelling of the 200 body
+	HC    string `json:"hc"`  // Init: the http.Client configuration
 	Rak   string `json:"rak"`
 	Ov    int    `json:"ov"`
 	Mult  int    `json:"mult"`
@@ -34,8 +37,12 @@ func writeEvents(rec, scen *vh.Recorder, run *Run, sc Scenario) {
 	if run.Runaway != "" {
 		return // reported by the monitor; thousands of events at one instant are not worth a trace validation
 	}
-	scen.Emit(map[string]any{"callers": sc.Callers})
-	rec.Emit(map[string]any{"ev": "Reset"})
+	scen.Emit(map[string]any{"hc": sc.HC, "opts": sc.Opts, "callers": sc.Callers})
+	hc := sc.HC
+	if hc == "" {
+		hc = "plain"
+	}
+	rec.Emit(map[string]any{"ev": "Reset", "hc": hc})
 	for _, e := range run.Events {
 		rec.Emit(e)
 	}
@@ -47,6 +54,12 @@ func runKey(run *Run) string {
 	for _, c := range run.Calls {
 		for _, p := range c.Posts {
 			set[p.Cls+"/"+p.Rak] = true
+			if p.Spec.Sp != "" {
+				set["sp:"+p.Spec.Sp] = true
+			}
+			if p.Spec.Cls == "redir" || p.Spec.Cls == "pres" || p.Spec.Cls == "loop" {
+				set[p.Spec.Cls+"@"+run.HC] = true
+			}
 			posts++
 		}
 		set["="+strings.SplitN(c.Res, ":", 2)[0]] = true
@@ -70,6 +83,8 @@ func scenarioOf(beh []Step, idx int) (Scenario, error) {
 	}
 	init := beh[0]
 	var sc Scenario
+	sc.HC = init.HC
+	sc.Opts = []string{"", "ua"}[idx%2]
 	for c := 1; c <= len(init.Start); c++ {
 		cs := CallSpec{StartMs: init.Start[c-1], API: []string{"post", "addchain", "post", "addprechain"}[(idx+c)%4], CtxKind: "none"}
 		if e := init.Ctx[c-1]; e >= 0 {
@@ -79,11 +94,25 @@ func scenarioOf(beh []Step, idx int) (Scenario, error) {
 		k := 0
 		for _, s := range beh {
 			if s.A == "Post" && s.C == c {
-				sp := RespSpec{Cls: s.Cls, Rak: s.Rak}
+				// the wire response of the specification; its materialization varies with the behaviour
+				sp := RespSpec{Cls: s.W, Rak: s.Rak}
+				seenAs := ""
+				switch s.W {
+				case "b200":
+					sp.Cls, sp.Sp = bodyClass(s.Sp), s.Sp
+				case "pres", "redir", "loop":
+					sp.Sp = s.Sp
+					if s.W != "pres" {
+						sp.Sp = ""
+					}
+					if seenClass(sc.HC, RespSpec{Cls: s.W, Sp: "canon"}) == "refused" {
+						seenAs = s.Cls
+					}
+				}
 				if s.Rak != "none" {
 					sp.Rav = s.Ov / 1000
 				}
-				cs.Script = append(cs.Script, decorate(sp, idx+7*k))
+				cs.Script = append(cs.Script, decorate(sp, idx+7*k, seenAs))
 				k++
 			}
 		}
@@ -98,6 +127,16 @@ func scenarioOf(beh []Step, idx int) (Scenario, error) {
 func compareWithSpec(rep *vh.Report, beh []Step, sc Scenario, run *Run, idx int) {
 	ctxt := map[string]any{"behaviour": beh, "scenario": sc}
 	init := beh[0]
+	for _, c := range run.Calls {
+		for _, p := range c.Posts {
+			if p.Cls == "refused" {
+				// which of the two admissible continuations follows a refused redirect is not the property's business:
+				// the run is judged by the monitors and by the trace specification (which admits both)
+				rep.Add("refused_redirect_behaviours", 1)
+				return
+			}
+		}
+	}
 	active := 0 // callers that send at least one request in the specification's behaviour
 	for c := 1; c <= len(init.Start); c++ {
 		for _, s := range beh {
@@ -235,8 +274,11 @@ func TestReplay(t *testing.T) {
 	}
 	rep := vh.NewReport("c13-replay", "behaviours of Retry.tla (TLC simulation, constants of the code) replayed on the real client under virtual time: "+
 		"result and number of requests where jitter cannot change them, shared (multiplier, not-before) after every response and every request instant "+
-		"against the specification's window in single-caller behaviours, property monitors on every timeline; non-trivial = distinct set of "+
-		"(response class, Retry-After form, result) with at least two requests")
+		"against the specification's window in single-caller behaviours, property monitors on every timeline; the behaviour fixes the http.Client "+
+		"configuration of the client (none / plain / own CheckRedirect passing, bounding, handing back, refusing / jar / Timeout), the wire kind of every "+
+		"response (redirect chains converting or preserving the POST, loops) and the spelling of every 200 body (10 legal JSON spellings of the correct "+
+		"response, 11 unparsable bodies; success must carry the content of that very response); non-trivial = distinct set of "+
+		"(response class, Retry-After form, body spelling, redirect kind x http.Client, result) with at least two requests")
 	rec, err := vh.NewRecorder("replay-traces.ndjson")
 	if err != nil {
 		t.Fatal(err)
@@ -281,9 +323,11 @@ func TestReplay(t *testing.T) {
 func TestTrace(t *testing.T) {
 	ntraces := vh.EnvInt("VERIF_TRACES", 150)
 	rep := vh.NewReport("c13-trace", "seeded random scenarios on the real client under virtual time and -race (1..3 goroutines sharing one client, "+
-		"finite scripts and infinite ones under a deadline or cancellation, redirects 301/302/303/307/308, Retry-After in seconds / HTTP-date / garbage); "+
-		"Call/Post/State/Return events validated by RetryTrace.tla, property monitors on every timeline; non-trivial = distinct set of "+
-		"(response class, Retry-After form, result) with at least two requests")
+		"finite scripts and infinite ones under a deadline or cancellation, redirect chains of 1..3 hops over 301/302/303/307/308 and loops through "+
+		"8 http.Client configurations, 200 bodies in 10 legal and 11 illegal spellings, jsonclient.Options with / without UserAgent and Authorization, "+
+		"Retry-After in seconds / HTTP-date / garbage); Reset{hc}/Call/Post{w,sp}/State/Return events validated by RetryTrace.tla (the specification "+
+		"decides what class the submission sees), property monitors on every timeline; non-trivial = distinct set of "+
+		"(response class, Retry-After form, body spelling, redirect kind x http.Client, result) with at least two requests")
 	rec, err := vh.NewRecorder("traces.ndjson")
 	if err != nil {
 		t.Fatal(err)
